@@ -124,3 +124,32 @@ SPECS = [
          old="        while not result and time.monotonic_ns() < timeout:\n            result = self._rf24.resend(send_only=True)",
          new="        while not result and time.monotonic_ns() > timeout:\n            result = self._rf24.resend(send_only=True)"),
 ]
+
+LITE = "circuitpython_nrf24l01/rf24_lite.py"
+SPECS += [
+    # ---- second batch: more clauses never seen firing
+    dict(name="c01-any-masks-32", file=RF, checks=["C01", "C10"], old="                return last_dyn_size\n", new="                return last_dyn_size & 0x1F\n"),
+    dict(name="c01-32-bytes-rejected", file=RF, checks=["C01"], old="        elif not buf or len(buf) > 32:\n            raise ValueError(\"buffer must", new="        elif not buf or len(buf) >= 32:\n            raise ValueError(\"buffer must"),
+    dict(name="c02-list-send-drops-last-result", file=RF, checks=["C02"], old="            return result  # type: ignore[return-value]", new="            return result[:-1] or result  # type: ignore[return-value]"),
+    dict(name="c04-every-descendant-is-a-child", file=MX, checks=["C04"], old="            if not to_node & (self._mask_inv << 3):", new="            if True:"),
+    dict(name="c10-update-returns-none", file=RF, checks=["C10"], old="        self._reg_write(0xFF)\n        return True", new="        self._reg_write(0xFF)\n        return None"),
+    dict(name="c10-clear-flags-flushes-rx", file=RF, checks=["C10"], old='        """This clears the interrupt flags in the status register."""\n', new='        """This clears the interrupt flags in the status register."""\n        self.flush_rx()\n'),
+    dict(name="c15-stops-draining-at-invalid-frame", file=MX, checks=["C15"], old="                continue  # frame_buf keeps the last frame that was actually handled", new="                return ret_val"),
+    dict(name="c15-poll-reply-sleeps-seconds", file=MX, checks=["C15"], old="                            time.sleep(self._parent_pipe / 1000)", new="                            time.sleep(self._parent_pipe * 2)"),
+    dict(name="c16-lease-filed-under-next-id", file=MESH, checks=["C16"], old="                self.set_address(self.frame_buf.header.reserved, new_addr)", new="                self.set_address((self.frame_buf.header.reserved + 1) & 0xFF, new_addr)"),
+    dict(name="c17-lookup-releases-the-asker", file=MESH, checks=["C17"],
+         old="                self.frame_buf.header.to_node = self.frame_buf.header.from_node\n\n                ret_val = 0",
+         new="                self.frame_buf.header.to_node = self.frame_buf.header.from_node\n                self.release_address(self.frame_buf.header.from_node)\n\n                ret_val = 0"),
+    dict(name="c18-mac-int-big-endian", file=BLE, checks=["C18"], old='self._mac = (address).to_bytes(6, "little")', new='self._mac = (address).to_bytes(6, "big")'),
+    dict(name="c19-crc-not-checked", file=BLE, checks=["C19"], old="            if end < 30 and self.rx_cache[end : end + 3] == crc24_ble(\n                self.rx_cache[:end]\n            ):", new="            if end < 30:"),
+    dict(name="c19-read-keeps-element", file=BLE, checks=["C19"], old="            ret_val = self.rx_queue[0]\n            del self.rx_queue[0]\n", new="            ret_val = self.rx_queue[0]\n"),
+    dict(name="c19-read-lifo", file=BLE, checks=["C19"], old="            ret_val = self.rx_queue[0]\n            del self.rx_queue[0]\n", new="            ret_val = self.rx_queue[-1]\n            del self.rx_queue[-1]\n"),
+    dict(name="c09-enter-leaves-power-off", file=RF, checks=["C09"], old="        self._ce_pin.value = False\n        self._config |= 2\n", new="        self._ce_pin.value = False\n        self._config |= 0\n"),
+    dict(name="c12-enqueue-changes-callers-type", file=ST, checks=["C12"], old="        new_frame = RF24NetworkFrame()\n        new_frame.unpack(frame.pack())\n", new="        new_frame = RF24NetworkFrame()\n        new_frame.unpack(frame.pack())\n        frame.header.reserved = 1\n"),
+    dict(name="c20-lite-load_ack-pipe6", file=LITE, checks=["C20"], old="        if 0 <= pipe_num <= 5 and buf and len(buf) <= 32:", new="        if 0 <= pipe_num <= 6 and buf and len(buf) <= 32:"),
+    dict(name="c20-lite-load_ack-ignores-full-fifo", file=LITE, checks=["C20"], old="            if not self.tx_full:\n                self._reg_write_bytes(0xA8 | pipe_num, buf)", new="            if True:\n                self._reg_write_bytes(0xA8 | pipe_num, buf)"),
+    dict(name="c20-lite-load_ack-returns-none", file=LITE, checks=["C20"], old="                self._reg_write_bytes(0xA8 | pipe_num, buf)\n                return True", new="                self._reg_write_bytes(0xA8 | pipe_num, buf)\n                return None"),
+    dict(name="c07-multicast-leaves-pipe0-auto-ack", file=MX, checks=["C07"], old="        self._rf24.listen = True\n        if not is_multicast:\n            self._rf24.auto_ack = 0x3E\n        return result", new="        self._rf24.listen = True\n        return result"),
+    dict(name="c05-routed-frame-also-queued", file=MX, checks=["C05"], old="                # pass it along\n                self._write(self.frame_buf.header.to_node, TX_ROUTED)\n                return (True, 0)", new="                # pass it along\n                self.queue.enqueue(self.frame_buf)\n                self._write(self.frame_buf.header.to_node, TX_ROUTED)\n                return (True, 0)"),
+    dict(name="c06-more-fragment-any-counter", file=ST, checks=["C06"], old="                elif self._frags.header.reserved - 1 != frame.header.reserved:", new="                elif self._frags.header.reserved - 1 < frame.header.reserved:"),
+]
